@@ -260,6 +260,55 @@ fn is_lower(s: &str) -> bool {
     })
 }
 
+
+/// (child-output) a script that prints and, in between, starts a child process writing to the inherited stdout: the
+/// tool's whole stdout must equal the stdout of the library run (done by this harness as a process of its own).
+fn case_child_output(t: &mut Tape, st: &mut Stats) -> Verdict {
+    ensure_duck();
+    let echo = ["/bin/echo", "/usr/bin/echo"].iter().find(|p| std::path::Path::new(p).exists()).copied();
+    let echo = match echo {
+        Some(e) => e,
+        None => return Verdict::Discard("no echo binary"),
+    };
+    let mut lines = vec![];
+    let mut children = 0;
+    let n = 2 + t.below(6);
+    for i in 0..n {
+        if t.chance(1, 3) {
+            lines.push(format!("exec {} child-{}", echo, i));
+            children += 1;
+        } else {
+            lines.push(format!("echo own line {} {}", i, word(t)));
+        }
+    }
+    if children == 0 {
+        lines.insert(1, format!("exec {} child-only", echo));
+    }
+    let fails = t.chance(1, 4);
+    if fails {
+        lines.push("assert false \"planted\"".to_string());
+    }
+    let text = format!("{}\n", lines.join("\n"));
+    let dir = format!("{}/c20c-{:?}", scratch_root(), std::thread::current().id()).replace(['(', ')'], "");
+    let _ = std::fs::create_dir_all(&dir);
+    let path = format!("{}/script.ds", dir);
+    std::fs::write(&path, &text).expect("write");
+    let me = std::env::current_exe().expect("current exe");
+    let lib = Command::new(&me).args(["librun", &path]).stdin(std::process::Stdio::null()).output().expect("spawn librun");
+    let cli = run_duck(&[&path]);
+    let _ = std::fs::remove_dir_all(&dir);
+    let lib_out = String::from_utf8_lossy(&lib.stdout).to_string();
+    st.class(if fails { "child-output-failing-script" } else { "child-output-succeeding-script" });
+    let d = json!({"script": text, "library_stdout": lib_out, "library_status": lib.status.code(), "tool_stdout": cli.stdout, "tool_status": cli.status});
+    if (lib.status.code() == Some(0)) != (cli.status == Some(0)) {
+        return fail("C20/child-output/status-differs", d);
+    }
+    if cli.stdout != lib_out {
+        return fail("C20/child-output/output-differs", d);
+    }
+    Verdict::Pass(Some(fp(&text)))
+}
+
 fn case_lint(t: &mut Tape, st: &mut Stats) -> Verdict {
     ensure_duck();
     let n = 1 + t.len(8);
@@ -380,7 +429,7 @@ fn case_info(t: &mut Tape, _st: &mut Stats) -> Verdict {
 pub fn property() -> Property {
     Property {
         id: "C20",
-        rule: "(run) generated deterministic scripts (echo / set / calc / if-else / for-in / functions / goto / survivable errors) ending by success, unknown command, failing assert, exit with a non-zero code (incl. 256, 512, 65536, negative), exit 0, exit with text, a malformed line (C08 kinds), or exit_on_error + error, followed by lines that must not run; each is run by the library in process (same SDK, captured output) and by the real duck binary as 'duck file' (one file case in three: the file is a symbolic link in another directory and starts with a relative !include_files, with or without a decoy of the same name next to the link target; library and tool are given the same path), 'duck -e text' or 'duck --eval text': exit status 0 iff the library run is Ok, otherwise non-zero with stdout containing 'Error: ' + the library error's Display, and the stdout before it equal to the library output; (lint) files whose labels / commands / output variables are spelled over lower-case, digits, '_', non-ASCII lower (é ß я 日) with at most one planted upper-case letter (A Z É Я Σ Q) in a label (also alone on its line), command or output, upper-case arguments and comments everywhere, optionally a malformed last line: 'duck -l|--lint file' exits 0 iff the file parses and every label, command and output is lower-case by an independent per-character predicate; (info) --version prints the three version strings, --help/-h print the usage. Non-trivial: a script that printed something and (for failures) failed after that; distinct by (script, form)",
+        rule: "(run) generated deterministic scripts (echo / set / calc / if-else / for-in / functions / goto / survivable errors) ending by success, unknown command, failing assert, exit with a non-zero code (incl. 256, 512, 65536, negative), exit 0, exit with text, a malformed line (C08 kinds), or exit_on_error + error, followed by lines that must not run; each is run by the library in process (same SDK, captured output) and by the real duck binary as 'duck file' (one file case in three: the file is a symbolic link in another directory and starts with a relative !include_files, with or without a decoy of the same name next to the link target; library and tool are given the same path), 'duck -e text' or 'duck --eval text': exit status 0 iff the library run is Ok, otherwise non-zero with stdout containing 'Error: ' + the library error's Display, and the stdout before it equal to the library output; (child-output) scripts that print and in between start a child process (exec of the echo binary) writing to the inherited stdout, succeeding or ending in a failed assert: the tool's whole stdout and zero / non-zero status must equal those of the library run, which the harness performs as a process of its own ('dsverif librun') so that the child's output lands in the same captured stream; (lint) files whose labels / commands / output variables are spelled over lower-case, digits, '_', non-ASCII lower (é ß я 日) with at most one planted upper-case letter (A Z É Я Σ Q) in a label (also alone on its line), command or output, upper-case arguments and comments everywhere, optionally a malformed last line: 'duck -l|--lint file' exits 0 iff the file parses and every label, command and output is lower-case by an independent per-character predicate; (info) --version prints the three version strings, --help/-h print the usage. Non-trivial: a script that printed something and (for failures) failed after that; distinct by (script, form)",
         assumptions: &[
             "the duck binary is built from /repo's working tree by check.sh (cargo build -p duckscript_cli, hooks off)",
             "REPL mode (no arguments) and title-case letters are not generated",
@@ -394,6 +443,15 @@ pub fn property() -> Property {
                 },
                 case: case_run,
                 min_classes: &[("ending-ExitNonZero", 200), ("ending-ParseError", 100), ("ending-FatalError", 200), ("form-file", 800), ("form-eval", 800), ("script-reached-through-a-symlink-with-relative-include", 200)],
+            },
+            Section {
+                name: "child-output",
+                plan: |t| match t {
+                    Tier::Quick => Plan::Random { cases: 1_600, max_len: 60 },
+                    Tier::Thorough => Plan::Random { cases: 30_000, max_len: 60 },
+                },
+                case: case_child_output,
+                min_classes: &[("child-output-succeeding-script", 500)],
             },
             Section {
                 name: "lint",
